@@ -244,6 +244,9 @@ let show_child = function
   | GNode (_, k, l, _, _) -> Printf.sprintf "n%d@%d" (int_of_n k) (int_of_n l)
 
 let run_g args =
+  (* an optional first argument m<hex> masks the child hashes of the implementation; the model's outputs do not depend
+     on the hash function (the theorems hold for every hash) *)
+  let args = match args with m :: r when String.length m > 0 && m.[0] = 'm' -> r | _ -> args in
   let rec split acc = function [] -> (List.rev acc, []) | "|" :: r -> (List.rev acc, r) | x :: r -> split (x :: acc) r in
   let (bs, script) = split [] args in
   let builds = split_list "/" bs in
